@@ -396,6 +396,7 @@ func declAlg(mt, d string) *envcodec.AlgInfo {
 func run(r *core.Run) int {
 	r.Rule = "verify cells: leaf key in {RSA 1024/2048/3072/4096, EC P-224/256/384/521, Ed25519} x declared algorithm (JWS: PS/ES/RS/HS 256-512, EdDSA, ES256K, none, empty, absent, case and whitespace variants; COSE: the matching identifiers, 0, an unassigned one, text values, absent) x 2 formats x 2 schemes, each with a genuinely valid signature for the declared algorithm where the key admits one (HMAC keyed with the leaf's SPKI DER and PEM); " +
 		"sign cells: NewLocalSigner over all (leaf, private key) pairs, local Sign for the six specs, remote Sign over declared key spec x leaf kind, KeySpec/Algorithm hash table. Enumerated completely; every cell is non-trivial; distinct by cell descriptor"
+	r.Assume("a signature 'valid for the declared algorithm' is produced with std crypto (RSA-PSS, PKCS#1 v1.5, ECDSA r||s, HMAC, Ed25519)")
 	cs := cells()
 	r.Set("verify_cells", len(cs))
 	r.Exhaustive(true)
